@@ -168,8 +168,8 @@ var c05Consumers = []synConsumer{
 // typedConsumers: consumers that decode as well as check syntax, with the
 // standard library's verdict for the same target.
 var typedConsumers = map[string]func([]byte) bool{
-	"Unmarshal(*any)":                       func(b []byte) bool { var r any; return stdjson.Unmarshal(b, &r) == nil },
-	"Unmarshal([doc],*[]any)":               func(b []byte) bool { var r []any; return stdjson.Unmarshal(b, &r) == nil },
+	"Unmarshal(*any)":                     func(b []byte) bool { var r any; return stdjson.Unmarshal(b, &r) == nil },
+	"Unmarshal([doc],*[]any)":             func(b []byte) bool { var r []any; return stdjson.Unmarshal(b, &r) == nil },
 	"Unmarshal([doc,\"\\n\u00e9\"],*any)": func(b []byte) bool { var r any; return stdjson.Unmarshal(b, &r) == nil },
 }
 
